@@ -180,7 +180,7 @@ def run_check(modname: str, tier: str, seed: int, workers: int = 0) -> int:
             print(f"VIOLATION property={pid} replay={path}")
             print(f"  clause: {v.get('clause')} — {str(v.get('detail'))[:300]}")
             print(f"  signature: {v.get('signature')}")
-            print(f"  scenario: {v.get('scenario')} deviations: {v.get('deviations')}")
+            print(f"  scenario: {str(v.get('scenario'))[:400]} deviations: {v.get('deviations')}")
         return 1
     return 0
 
